@@ -147,6 +147,11 @@ fn module<M: World>(report: &Report, ctr: &Ctr, tier: Tier, seed: u64) {
                         p2[bit / 8] ^= 1 << (bit % 8);
                         server_case::<M>(report, ctr, user, key, ss, p2, cseed, "proof-bit-flipped");
                     }
+                    if cs == 0xDEAD_BEEF && ss == 0x0102_0304 {
+                        for p2 in altered_proofs(&proof, tier == Tier::Thorough && ui == 0 && ki == 0) {
+                            server_case::<M>(report, ctr, user, key, ss, p2, cseed, "proof-multi-bit-altered");
+                        }
+                    }
                 }
             }
         }
